@@ -148,6 +148,9 @@ static int op_wcase(toks_t *t)
   unsigned short *s16 = (unsigned short *)malloc(n * 2 + 2);
   unsigned char *s8 = (unsigned char *)malloc(n + 1), *ref = NULL;
   char why[200] = "";
+  /* every JPEG buffer of this op stays allocated until the handle is gone: a handle remembers the address of the last buffer, and a
+   * new allocation landing on a freed one is a history of its own (op aba), not something to meet by accident here */
+  unsigned char *keep[32]; int nkeep = 0;
   tjhandle h = tj3Init(TJINIT_COMPRESS);
   xs_state = 0x9E3779B97F4A7C15ULL ^ (unsigned long long)tl(t, 8) * 0x100000001B3ULL;
   fill_samples(s16, n, prec, kind, nc);
@@ -176,7 +179,7 @@ static int op_wcase(toks_t *t)
     rc = tj_compress_any(h, prec, s16, s8, w, hgt, pf, &jb, &js);
     if (rc < 0) { bad = 1; snprintf(why, sizeof(why), "worst-case buffer of tj3JPEGBufSize()=%zu bytes too small (JPEG is %zu): %s", bound, refsize, tj3GetErrorStr(h)); }
     else if (jb != jb0 || js != refsize || memcmp(jb, ref, refsize)) { bad = 1; snprintf(why, sizeof(why), "NOREALLOC result differs from reference"); }
-    free(jb0);
+    keep[nkeep++] = jb0;
   }
   /* (b) capacities around the real size, reallocation disabled */
   for (k = 0; k < 5 && !bad; k++) {
@@ -188,31 +191,90 @@ static int op_wcase(toks_t *t)
     if (rc == 0) {
       if (js > cap || jb != jb0 || js != refsize || memcmp(jb, ref, refsize)) { bad = 1; snprintf(why, sizeof(why), "NOREALLOC cap=%zu: success with size %zu (JPEG is %zu)", cap, js, refsize); }
     } else if (cap > refsize) { bad = 1; snprintf(why, sizeof(why), "NOREALLOC cap=%zu > size %zu failed: %s", cap, refsize, tj3GetErrorStr(h)); }
-    free(jb0);
+    keep[nkeep++] = jb0;
   }
   /* (c) reallocation enabled: tiny, exact, and reused buffers */
   SETP(TJPARAM_NOREALLOC, 0);
   for (k = 0; k < 4 && !bad; k++) {
     size_t cap = k == 0 ? 1 : k == 1 ? refsize : k == 2 ? refsize - 1 : 4096;
-    unsigned char *jb = (unsigned char *)tj3Alloc(cap ? cap : 1); size_t js = cap;
+    unsigned char *jb = (unsigned char *)tj3Alloc(cap ? cap : 1), *orig = jb; size_t js = cap;
     int rep;
     for (rep = 0; rep < 2 && !bad; rep++) {    /* second iteration reuses the returned buffer */
       rc = tj_compress_any(h, prec, s16, s8, w, hgt, pf, &jb, &js);
       if (rc < 0 || js != refsize || memcmp(jb, ref, refsize)) { bad = 1; snprintf(why, sizeof(why), "realloc cap=%zu rep=%d: rc=%d size %zu (JPEG is %zu)", cap, rep, rc, js, refsize); }
     }
-    tj3Free(jb);
+    keep[nkeep++] = jb;
+    if (jb != orig) keep[nkeep++] = orig;    /* the caller's own buffer is never freed by the library */
   }
   if (bad) printf("O fail wcase %s\n", why); else printf("O ok\n");
 done:
   tj3Free(ref);
   free(s16); free(s8);
   tj3Destroy(h);
+  while (nkeep > 0) tj3Free(keep[--nkeep]);
   return 1;
 }
+
+#ifdef C13_WRAP
+/* A one-slot allocator under malloc/free (the executor of C13 is linked with --wrap=malloc,free): while armed, a request of
+ * 256..32768 bytes is served from the slot when the slot is free, so that "free the buffer, allocate another one" puts the new
+ * buffer at the address of the old one - which any malloc may do - with room behind it for a canary instead of a heap header. */
+extern void *__real_malloc(size_t n);
+extern void __real_free(void *p);
+static unsigned char c13_slot[1 << 17] __attribute__((aligned(64)));
+static int c13_slot_on = 0, c13_slot_used = 0;
+void *__wrap_malloc(size_t n)
+{
+  if (c13_slot_on && !c13_slot_used && n >= 256 && n <= 32768) { c13_slot_used = 1; return c13_slot; }
+  return __real_malloc(n);
+}
+void __wrap_free(void *p) { if (p == (void *)c13_slot) { c13_slot_used = 0; return; } __real_free(p); }
+
+/* aba <w> <h> <quality> <seed> <delta> : the caller lets the library fill a large buffer of its own, frees it, allocates a buffer
+ * smaller than the JPEG by <delta> bytes - which the allocator places at the same address - and compresses again with the true
+ * capacity and reallocation enabled.  Nothing may be stored beyond that capacity. */
+static int op_aba(toks_t *t)
+{
+  int w = (int)tl(t, 1), hgt = (int)tl(t, 2), q = (int)tl(t, 3), delta = (int)tl(t, 5), rc; size_t n = (size_t)w * hgt * 3, i, big = 32768, size1, cap, over = 0;
+  unsigned char *img = (unsigned char *)malloc(n + 1), *P, *Q, *jb; size_t js;
+  tjhandle h = tj3Init(TJINIT_COMPRESS);
+  xs_state = 0x9E3779B97F4A7C15ULL ^ (unsigned long long)tl(t, 4) * 0x100000001B3ULL;
+  for (i = 0; i < n; i++) img[i] = (unsigned char)xs_next();
+  tj3Set(h, TJPARAM_SUBSAMP, TJSAMP_444); tj3Set(h, TJPARAM_QUALITY, q);
+  c13_slot_on = 1;
+  P = (unsigned char *)tj3Alloc(big);
+  if (P != c13_slot) { printf("R skip slot\n"); c13_slot_on = 0; tj3Free(P); goto done; }
+  jb = P; js = big;
+  rc = tj3Compress8(h, img, w, 0, hgt, TJPF_RGB, &jb, &js);
+  if (rc < 0 || jb != P || js < 300 + (size_t)delta) { printf("R skip first %d %zu\n", rc, js); if (jb != P) tj3Free(jb); tj3Free(P); c13_slot_on = 0; goto done; }
+  size1 = js;
+  tj3Free(P);                                   /* the caller is done with the first JPEG */
+  cap = size1 - (size_t)delta;
+  Q = (unsigned char *)tj3Alloc(cap);           /* a new, smaller buffer: same address */
+  memset(c13_slot + cap, 0xA5, 4096);
+  jb = Q; js = cap;
+  rc = tj3Compress8(h, img, w, 0, hgt, TJPF_RGB, &jb, &js);
+  for (i = 0; i < 4096; i++) if (c13_slot[cap + i] != 0xA5) over = i + 1;
+  printf("R same %d rc %d moved %d size %zu cap %zu\n", Q == c13_slot, rc, jb != Q, js, cap);
+  if (over) printf("O fail aba: %zu bytes stored beyond a fresh %zu-byte buffer (reallocation enabled) that malloc placed at the address of the buffer used in the previous call, which the caller had freed\n", over, cap);
+  else if (rc < 0 || js != size1) printf("O fail aba: second compression rc=%d size %zu, expected %zu\n", rc, js, size1);
+  else printf("O ok\n");
+  if (jb != Q) tj3Free(jb);
+  tj3Free(Q);
+  c13_slot_on = 0;
+done:
+  free(img);
+  tj3Destroy(h);
+  return 1;
+}
+#endif
 
 static int dispatch_c13(toks_t *t)
 {
   const char *op = t->tok[0];
+#ifdef C13_WRAP
+  if (!strcmp(op, "aba") && t->n >= 6) return op_aba(t);
+#endif
   if (!strcmp(op, "dest")) return op_dest(t);
   if (!strcmp(op, "wcase")) return op_wcase(t);
   return 0;
